@@ -72,17 +72,60 @@ def construct_from_array(cls, s, unit, arr):
 FIXED_DIRS = [np.array(v, dtype=float) for v in ((0.3, -0.5, 0.8), (1, 0, 0), (0, -1, 0), (0, 0, 1), (-1, 1, 0), (2, 1, -2))]
 
 
-def compare(c, twin, probe, L, rng):
+PRIM = ("Sphere", "Capsule", "Box", "Ellipsoid", "Cylinder")
+
+
+def alt_queries(c, twin, probe, probe2, L):
+    """the other distance / collision algorithms on (collider, probe) in both argument orders, against the fresh twin.  Per
+    function the collider is asked first (right after the previous observation asked it last), then the twin, then the collider
+    again, so that a per-function 'last pair' memo would be hit.  Differences in ticks of 1e-3*L/8 (tolerance of C09 / C08)."""
+    from distance3d import gjk, mpr
+    prim = lambda x: type(x).__name__ in PRIM
+    fns = [("orig", lambda a, b: float(gjk.gjk_distance_original(a, b)[0]), lambda a, b: True),
+           ("nest", lambda a, b: float(gjk.gjk_nesterov_accelerated_distance(a, b)), lambda a, b: True),
+           ("nestp", lambda a, b: float(gjk.gjk_nesterov_accelerated_primitives_distance(a, b)), lambda a, b: prim(a) and prim(b)),
+           ("libccd", lambda a, b: 1.0 * bool(gjk.gjk_intersection_libccd(a, b)), lambda a, b: True),
+           ("mpr", lambda a, b: 1.0 * bool(mpr.mpr_intersection(a, b)), lambda a, b: True)]
+    d0 = float(gjk.gjk(twin, probe2)[0])
+    worst = 0
+    for pr in (probe2, probe):
+        for name, f, ok in fns:
+            for swap in (False, True):
+                args = (lambda x: (pr, x)) if swap else (lambda x: (x, pr))
+                if not ok(*args(c)):
+                    continue
+                def call(x):
+                    try:
+                        return f(*args(x)), None
+                    except Exception as e:            # an algorithm that does not accept the pair must refuse both alike
+                        return None, type(e).__name__
+                (v1, e1), (v2, e2) = call(c), call(twin)
+                call(c)
+                if e1 or e2:
+                    if e1 != e2:
+                        worst = max(worst, 100)
+                    continue
+                if name in ("libccd", "mpr"):
+                    dref = float(gjk.gjk(twin, pr)[0])
+                    if v1 != v2 and dref > 2e-3 * L:          # booleans are compared for clear gaps only (band of C02)
+                        worst = max(worst, 100)
+                else:
+                    worst = max(worst, ticks(abs(v1 - v2), 1e-3 * L / 8))
+    return worst
+
+
+def compare(c, twin, probe, L, rng, probe2=None):
     """measured differences between a collider and its fresh twin, in ticks of 1e-9*L/8"""
     from distance3d import gjk
     tick = TOL * L / 8
-    out = {"support": 0, "aabb": 0, "center": 0, "first": 0, "pose": 0, "gjk": 0, "exc": "none"}
+    out = {"support": 0, "aabb": 0, "center": 0, "first": 0, "pose": 0, "gjk": 0, "alt": 0, "exc": "none"}
     try:
         if rng.random() < 0.5:        # narrow-phase queries first, so that the support queries below come last
             d1 = gjk.gjk(c, probe)[0]
             d2 = gjk.gjk(twin, probe)[0]
             i1, i2 = gjk.gjk_intersection(c, probe), gjk.gjk_intersection(twin, probe)
             out["gjk"] = ticks(abs(d1 - d2), 1e-5 * L / 8) + (0 if i1 == i2 or min(d1, d2) < 1e-3 * L else 100)
+        out["alt"] = alt_queries(c, twin, probe, probe2, L)
         worst = 0.0
         # a fixed direction list that starts and ends with the same direction: the last query before a pose update
         # and the first query after it ask the same direction
@@ -110,6 +153,8 @@ def replay_history(hid, hist, cls, s, unit, posevals, rng, margin):
     stack = np.zeros((64, 4, 4))            # arrays are items of one pose stack
     slot = {}
     probe = C.Sphere(np.array([0.3, -0.2, 0.1]), 0.5)
+    Tp = np.eye(4); Tp[:3, 3] = [-0.4, 0.6, -0.2]
+    probe2 = C.Box(Tp, np.array([0.6, 0.4, 0.5]))
     L = max(1.0, unit * S.feature_size(s), max(float(np.linalg.norm(P[:3, 3])) for P in posevals.values()))
     k = 0
     for step, h in enumerate(hist):
@@ -128,14 +173,14 @@ def replay_history(hid, hist, cls, s, unit, posevals, rng, margin):
                     cols[c].update_pose(arrays[a])
                 except Exception as e:
                     ev.append({"ev": "observe", "id": f"{hid}.{step}", "c": c, "twinPose": p, "support": 0, "aabb": 0, "center": 0,
-                               "first": 0, "pose": 0, "gjk": 0, "exc": "update_pose:" + type(e).__name__})
+                               "first": 0, "pose": 0, "gjk": 0, "alt": 0, "exc": "update_pose:" + type(e).__name__})
             lastval[c] = p
             ev.append({"ev": op, "id": f"{hid}.{step}", "c": c, "a": a, "p": p})
         else:
             twin = make(cls, s, unit, posevals[lastval[c]])
             if margin:
                 twin = C.Margin(twin, margin)
-            o = compare(cols[c], twin, probe, L, rng)
+            o = compare(cols[c], twin, probe, L, rng, probe2)
             o.update({"ev": "observe", "id": f"{hid}.{step}", "c": c, "twinPose": lastval[c]})
             ev.append(o)
     return ev
@@ -265,7 +310,7 @@ def run(tier, seed):
         m = meta[hid]
         e = evbyid.get(eid, {})
         res.violation(f"{m['cls']}:{'+'.join(sorted(clauses))}:{chash(m['history'])}", "+".join(sorted(clauses)),
-                      f"{m['cls']} {m['shape']} event {eid}: {({k: e.get(k) for k in ('support', 'aabb', 'center', 'first', 'pose', 'gjk', 'exc')})} "
+                      f"{m['cls']} {m['shape']} event {eid}: {({k: e.get(k) for k in ('support', 'aabb', 'center', 'first', 'pose', 'gjk', 'alt', 'exc')})} "
                       f"history={json.dumps(m['history'])[:300]}", {"meta": m, "event": e, "seed": seed})
     res.coverage["evaluations"] = sum(len(e) for e in events)
     res.coverage["distinct_nontrivial"] = len({chash([m["cls"], m["history"]]) for m in meta.values() if sum(1 for x in m["history"] if x["op"] == "update") >= 1})
